@@ -155,6 +155,33 @@ def derives_patternwise(t, param):
     return False
 
 
+FLOAT_DTYPES = {("extref", "float"), ("ext", "numpy.float64"), ("ext", "numpy.float32"), ("ext", "numpy.float16"), ("ext", "numpy.double"), ("ext", "numpy.single"),
+                ("const", "float"), ("const", "float64"), ("const", "float32"), ("const", "f8"), ("const", "f4"), ("const", "d"), ("const", "f")}
+
+
+def float_narrowings(t):
+    """sub-terms of t that convert a raw (not boolean) array to a fixed-width float dtype"""
+    out = []
+    for x in walk(t):
+        if not isinstance(x, tuple) or len(x) < 3:
+            continue
+        src = dt = None
+        if x[0] == "method" and x[2] == "astype" and len(x) > 3 and x[3]:
+            src, dt = x[1], x[3][0]
+        elif x[0] == "ext" and x[1] in ("numpy.array", "numpy.asarray", "numpy.asanyarray", "numpy.ascontiguousarray") and x[2]:
+            src = x[2][0]
+            dt = dict(x[3]).get("dtype", x[2][1] if len(x[2]) > 1 else None)
+        elif x[0] == "ext" and x[1] in ("numpy.asfarray", "numpy.float64", "numpy.float32") and x[2]:
+            src, dt = x[2][0], ("extref", "float")
+        if dt is None or src is None:
+            continue
+        if isinstance(dt, tuple) and dt[0] == "extref" and dt[1] in ("numpy.float64", "numpy.float32", "numpy.float16", "numpy.double", "numpy.single"):
+            dt = ("extref", "float")
+        if dt in FLOAT_DTYPES and not (isinstance(src, tuple) and src[0] in ("cmp", "boolop")):
+            out.append(x)
+    return out
+
+
 def call_terms(path_or_term, qname):
     """all ('call', qname, ...) sub-terms"""
     return [x for x in walk(path_or_term) if isinstance(x, tuple) and len(x) == 4 and x[0] == "call" and x[1] == qname]
@@ -194,6 +221,14 @@ def dag_gate(rep, prog, qname, param, rule="GATE", exc="ValueError", via=U + "is
         return S
     r, call = hit
     rep.ok(rule + ".raise", fwhere(f, r.node), "%s raised when %s(%s) is false" % (exc, via.split(".")[-1], fmt(call[2][0])))
+    nar = float_narrowings(call[2][0])
+    if nar:
+        # "whatever the magnitude of the entries": float64 is not a superset of what the caller may hand in (np.longdouble,
+        # object arrays of Fractions): a non-zero entry below 4.9e-324 becomes 0.0 and the edge is gone before the test sees it
+        rep.bad(rule + ".lossless", fwhere(f, r.node), "the matrix is converted to a fixed float dtype before the %s test (%s): non-zero entries of wider types "
+                "(np.longdouble, exact rationals) underflow to 0 and their edges are not tested" % (via.split(".")[-1], fmt(nar[0])[:80]))
+    else:
+        rep.ok(rule + ".lossless", fwhere(f, r.node), "the tested matrix is the caller's, up to conversions that cannot turn a non-zero entry into zero")
     # dominance: every store / return after the gate is reached only with the gate passed
     late = [x for x in S.facts if x.qname == f.qname and x.kind in ("attrstore", "return")]
     undominated = [x for x in late if (call, True) not in gate_atoms(x.path, via)]
